@@ -597,6 +597,7 @@ func (e *Engine) forStmt(s *ast.ForStmt, in []*State) []*State {
 		for _, st := range back {
 			e.Client.LoopBack(e, st, s)
 		}
+		e.pruneScope(out, s.Body) // clients see the variables of the body go out of scope at the end of an iteration
 	}
 	return append(f, brk...)
 }
@@ -651,6 +652,7 @@ func (e *Engine) rangeStmt(s *ast.RangeStmt, in []*State) []*State {
 		for _, st := range out {
 			e.Client.LoopBack(e, st, s)
 		}
+		e.pruneScope(out, s.Body) // clients see the variables of the body go out of scope at the end of an iteration
 	}
 	return append(append([]*State(nil), exit...), brk...)
 }
@@ -1286,7 +1288,14 @@ func (e *Engine) aliasTarget(st *State, r ast.Expr) *keyInfo {
 			return nil
 		}
 		if !IsBuiltinCall(e.Info, x, "len") && !IsBuiltinCall(e.Info, x, "cap") {
-			return nil
+			// v := f(args) with f free of side effects: v names that value while the arguments keep theirs
+			// (facts about it outlive v's scope)
+			if callee := Callee(e.Info, x); callee == nil || !e.pureCallee(callee) || callee.Type().(*types.Signature).Results().Len() != 1 {
+				return nil
+			}
+			if _, basic := e.Info.TypeOf(x).Underlying().(*types.Basic); !basic {
+				return nil
+			}
 		}
 		// n := len(v) names the length only while v keeps its value: if v is assigned again later, n is a number
 		// of its own (facts about it must survive the change of v)
@@ -1320,6 +1329,17 @@ func (e *Engine) setAlias(st *State, l ast.Expr, target *keyInfo) *State {
 	for _, o := range target.Objs {
 		if o == obj {
 			return st // self-reference: x = x.f
+		}
+	}
+	// a variable must not be named after a shorter-lived one (declared later, in an inner scope): when that one goes
+	// out of scope everything known about both would be forgotten. The facts are copied instead.
+	if !e.isResultIdent(id) {
+		cur := e.CurFunc()
+		inCur := func(p token.Pos) bool { return cur != nil && p >= cur.Pos() && p < cur.End() }
+		for _, o := range target.Objs {
+			if lv, ok := o.(*types.Var); ok && !lv.IsField() && lv.Pkg() != nil && lv.Parent() != lv.Pkg().Scope() && lv.Pos() > obj.Pos() && !strings.HasPrefix(lv.Name(), "ret") && inCur(lv.Pos()) && inCur(obj.Pos()) {
+				return st
+			}
 		}
 	}
 	if e.isResultIdent(id) && len(e.frames) > 0 {
@@ -1544,6 +1564,24 @@ func (e *Engine) lenLowerBound(st *State, l, r ast.Expr) *int64 {
 		}
 		return &n
 	}
+	// v := s[k:] has len(s) - k elements
+	if sl, ok := r.(*ast.SliceExpr); ok && sl.High == nil && sl.Max == nil {
+		k := int64(0)
+		if sl.Low != nil {
+			v, isConst := constInt(e.Info, sl.Low)
+			if !isConst || v < 0 {
+				return nil
+			}
+			k = v
+		}
+		if bk := e.canon(st, sl.X); bk.OK {
+			if f := st.facts["len("+bk.Key+")"]; f != nil && f.Lo != nil && *f.Lo-k >= 0 {
+				n := *f.Lo - k
+				return &n
+			}
+		}
+		return nil
+	}
 	if cl, ok := r.(*ast.CompositeLit); ok {
 		if _, isSlice := e.Info.TypeOf(cl).Underlying().(*types.Slice); isSlice {
 			n := int64(len(cl.Elts))
@@ -1626,6 +1664,10 @@ func (e *Engine) cond(x ast.Expr, in []*State) (t, f []*State) {
 			return append(t1, t2...), f2
 		}
 	}
+	// x OP max(a, b) / min(a, b): the comparison with each argument, combined
+	if rw := e.expandMinMax(x); rw != nil {
+		return e.cond(rw, in)
+	}
 	in = e.expr(x, in)
 	for _, st := range in {
 		if n := e.assumeAtom(st, x, true); n != nil {
@@ -1636,6 +1678,60 @@ func (e *Engine) cond(x ast.Expr, in []*State) (t, f []*State) {
 		}
 	}
 	return compact(t), compact(f)
+}
+
+// expandMinMax rewrites a comparison against the builtin max/min of two values into the comparisons it stands for:
+// x < max(a,b) is x<a || x<b, x >= max(a,b) is x>=a && x>=b, and dually for min.
+func (e *Engine) expandMinMax(x ast.Expr) ast.Expr {
+	b, ok := ast.Unparen(x).(*ast.BinaryExpr)
+	if !ok {
+		return nil
+	}
+	switch b.Op {
+	case token.LSS, token.LEQ, token.GTR, token.GEQ:
+	default:
+		return nil
+	}
+	which := func(y ast.Expr) (string, *ast.CallExpr) {
+		call, ok := ast.Unparen(y).(*ast.CallExpr)
+		if !ok || len(call.Args) != 2 {
+			return "", nil
+		}
+		if IsBuiltinCall(e.Info, call, "max") {
+			return "max", call
+		}
+		if IsBuiltinCall(e.Info, call, "min") {
+			return "min", call
+		}
+		return "", nil
+	}
+	op, lhs := b.Op, b.X
+	name, call := which(b.Y)
+	if call == nil {
+		// max(a,b) OP x: turn around
+		if name, call = which(b.X); call == nil {
+			return nil
+		}
+		lhs, op = b.Y, flipOp(b.Op)
+	}
+	mk := func(y ast.Expr) ast.Expr {
+		n := &ast.BinaryExpr{X: lhs, OpPos: b.OpPos, Op: op, Y: y}
+		if tv, ok := e.Info.Types[b]; ok {
+			e.Info.Types[n] = types.TypeAndValue{Type: tv.Type}
+		}
+		return n
+	}
+	// x < max: some argument is greater; x > max / x >= max: all are; min is the dual
+	any := (name == "max" && (op == token.LSS || op == token.LEQ)) || (name == "min" && (op == token.GTR || op == token.GEQ))
+	join := token.LAND
+	if any {
+		join = token.LOR
+	}
+	n := &ast.BinaryExpr{X: mk(call.Args[0]), OpPos: b.OpPos, Op: join, Y: mk(call.Args[1])}
+	if tv, ok := e.Info.Types[b]; ok {
+		e.Info.Types[n] = types.TypeAndValue{Type: tv.Type}
+	}
+	return n
 }
 
 // Assume returns st strengthened by "x evaluates to val", or nil if that is impossible.
